@@ -429,6 +429,301 @@ for v in VARIANTS:
     if v not in seen:
         T("serialize", v, "atomic", "not serializable: error")
 
+# ---- call graph ----------------------------------------------------------------------------------------------------
+# Nodes: `Type::method` for every method of the visitor types (all their impl blocks; the trait's default `visit` when the
+# impl does not override it), `ext:name` for every function that is handed the visitor (`x.visit_children(self)`,
+# `inner.drop_mut(self)`: the union of the bodies of ALL functions of that name in the crate), `Drop<T>::drop` for the
+# payload types with a Drop impl, `PartialEq<SteelVal>::eq`.  Edges: `self.m(…)`, `Self::m(…)`, `Type::m(…)`,
+# `<local of a visitor type>.m(…)`, `<visitor parameter>.m(…)` inside an `ext:` function, a visitor passed on.
+# Not seen by this scan: calls through closures and drops of temporaries (the compiler's drop glue).
+ALL_RS = {}
+for root, _, files in os.walk(CORE):
+    for fn in files:
+        if fn.endswith(".rs"):
+            ALL_RS[os.path.join(root, fn)] = None
+
+
+def all_src():
+    for pth in list(ALL_RS):
+        if ALL_RS[pth] is None:
+            ALL_RS[pth] = strip(open(pth).read())
+        yield ALL_RS[pth]
+
+
+def impl_blocks(src, header_re):
+    out = []
+    for m in re.finditer(header_re, src):
+        o = src.find("{", m.end() - 1)
+        out.append(block_at(src, o)[0])
+    return out
+
+
+VISITOR_TYPES = {
+    # type: (source, [header regexes of its impl blocks], trait whose default `visit` applies)
+    "MarkAndSweepContext": (closed, [r"\bimpl<'a>\s+BreadthFirstSearchSteelValVisitor\s+for\s+MarkAndSweepContext<'a>\s*\{",
+                                     r"\bimpl<'a>\s+MarkAndSweepContext<'a>\s*\{"], "BreadthFirstSearchSteelValVisitor"),
+    "MarkAndSweepContextRefQueue": (closed, [r"\bimpl<'a>\s+BreadthFirstSearchSteelValReferenceVisitor2<'a>\s+for\s+MarkAndSweepContextRefQueue<'a>\s*\{",
+                                             r"\bimpl<'a>\s+MarkAndSweepContextRefQueue<'a>\s*\{"], "BreadthFirstSearchSteelValReferenceVisitor2"),
+    "CycleCollector": (cycles, [r"\bimpl<'a>\s+BreadthFirstSearchSteelValVisitor\s+for\s+CycleCollector<'a>\s*\{",
+                                r"\bimpl<'a>\s+CycleCollector<'a>\s*\{"], "BreadthFirstSearchSteelValVisitor"),
+    "IterativeDropHandler": (cycles, [r"\bimpl<'a>\s+BreadthFirstSearchSteelValVisitor\s+for\s+IterativeDropHandler<'a>\s*\{",
+                                      r"\bimpl<'a>\s+IterativeDropHandler<'a>\s*\{"], "BreadthFirstSearchSteelValVisitor"),
+    "EqualityVisitor": (cycles, [r"\bimpl<'a>\s+BreadthFirstSearchSteelValVisitor\s+for\s+EqualityVisitor<'a>\s*\{"],
+                        "BreadthFirstSearchSteelValVisitor"),
+    "RecursiveEqualityHandler": (cycles, [r"\bimpl<'a>\s+RecursiveEqualityHandler<'a>\s*\{"], None),
+}
+TRAIT_SRC = {"BreadthFirstSearchSteelValVisitor": cycles, "BreadthFirstSearchSteelValReferenceVisitor2": cycles}
+CG = {}          # node -> set of callees
+BODY = {}        # node -> body text
+
+
+def trait_methods(tname):
+    m = re.search(r"\bpub(?:\(crate\))?\s+trait\s+%s(<'a>)?\s*\{" % tname, TRAIT_SRC[tname])
+    if not m:
+        die("trait %s not found" % tname)
+    return methods(block_at(TRAIT_SRC[tname], TRAIT_SRC[tname].find("{", m.end() - 1))[0])
+
+
+for ty, (src_, headers, tr) in VISITOR_TYPES.items():
+    ms = {}
+    for h in headers:
+        for blk in impl_blocks(src_, h):
+            for k, b in methods(blk).items():
+                ms.setdefault(k, b)
+    if not ms:
+        die("no impl block found for " + ty)
+    if tr:
+        for k, b in trait_methods(tr).items():
+            ms.setdefault(k, b)            # provided methods (the default `visit`)
+    for k, b in ms.items():
+        BODY["%s::%s" % (ty, k)] = b
+
+# locals / fields of a visitor type inside a body: `let mut x = Type {`, fields `left` / `right` of the equality handler
+FIELD_TYPES = {"RecursiveEqualityHandler": {"left": "EqualityVisitor", "right": "EqualityVisitor"}}
+EXT = {}         # ext name -> set of visitor types it was handed
+
+
+def edges_of(node, body, self_ty, params):
+    """params: {identifier: visitor type} — names that denote a visitor inside this body (`self` included)."""
+    out = set()
+    names = dict(params)
+    for m in re.finditer(r"\blet\s+(?:mut\s+)?(\w+)\s*=\s*(\w+)\s*\{", body):
+        if m.group(2) in VISITOR_TYPES:
+            names[m.group(1)] = m.group(2)
+    if self_ty:
+        for f, t in FIELD_TYPES.get(self_ty, {}).items():
+            names["self." + f] = t
+    for ident, ty in names.items():
+        for m in re.finditer(r"(?<![\w.])%s\s*\.\s*(\w+)\s*\(" % re.escape(ident), body):
+            tgt = "%s::%s" % (ty, m.group(1))
+            if tgt in BODY:
+                out.add(tgt)
+    for m in re.finditer(r"\b(\w+)\s*\{[^{}]*\}\s*\.\s*(\w+)\s*\(", body):
+        if m.group(1) in VISITOR_TYPES and "%s::%s" % (m.group(1), m.group(2)) in BODY:
+            out.add("%s::%s" % (m.group(1), m.group(2)))
+    for m in re.finditer(r"\b(Self|\w+)::(\w+)\s*\(", body):
+        ty = self_ty if m.group(1) == "Self" else m.group(1)
+        tgt = "%s::%s" % (ty, m.group(2))
+        if tgt in BODY:
+            out.add(tgt)
+    # the visitor handed to somebody else: `recv.f(…, self, …)` / `recv.f(&mut local)`
+    for m in re.finditer(r"[.:]\s*(\w+)\s*\(([^()]*)\)", body):
+        for ident, ty in names.items():
+            if "." in ident:
+                continue
+            if re.search(r"(?:^|,)\s*(?:&mut\s+|&\s*)?%s\s*(?:,|$)" % re.escape(ident), m.group(2)):
+                if "%s::%s" % (ty, m.group(1)) in BODY:
+                    continue
+                EXT.setdefault(m.group(1), set()).add(ty)
+                out.add("ext:" + m.group(1))
+    # a nested comparison / hash of values: `==` between values is `PartialEq for SteelVal`
+    if self_ty == "RecursiveEqualityHandler" and re.search(r"\.get\(key\)|\.contains\(key\)", body):
+        out.add("PartialEq<SteelVal>::eq")
+    return out
+
+
+for node, body in list(BODY.items()):
+    ty = node.split("::")[0]
+    CG[node] = edges_of(node, body, ty, {"self": ty})
+# PartialEq for SteelVal builds the handler and calls compare_equality
+peq = find_block(cycles, r"\bimpl\s+PartialEq\s+for\s+SteelVal\s*\{", "impl PartialEq for SteelVal")
+BODY["PartialEq<SteelVal>::eq"] = fn_body(peq, "eq")
+CG["PartialEq<SteelVal>::eq"] = edges_of("PartialEq<SteelVal>::eq", BODY["PartialEq<SteelVal>::eq"], None, {})
+# Drop impls start the drop handler
+for t in DROP_IMPLS:
+    b = find_block(drop_mod, r"\bimpl\s+Drop\s+for\s+(?:\w+::)*%s\s*\{" % t, "Drop for " + t)
+    CG["Drop<%s>::drop" % t] = edges_of("Drop<%s>::drop" % t, b, None, {})
+# functions that were handed a visitor: every function of that name anywhere in the crate, one node per owner
+# (`ext:name@<impl or trait header>`).  A call `self.name(visitor)` inside such a function goes to the definitions of the
+# same owner (or, when the owner has none, to all); a call on another receiver goes to the definitions of all OTHER owners
+# (the scan does not know types: a function that calls its own name on a value of its own type is not seen as recursive).
+OWNERS = {}      # file text -> list of (start, end, header)
+
+
+def owners_of(src_):
+    if src_ not in OWNERS:
+        lst = []
+        for m in re.finditer(r"\b(impl|trait)\b[^{};]*\{", src_):
+            o = m.end() - 1
+            try:
+                _, e = block_at(src_, o)
+            except SystemExit:
+                continue
+            lst.append((o, e, re.sub(r"\s+", " ", src_[m.start():o]).strip()))
+        OWNERS[src_] = lst
+    return OWNERS[src_]
+
+
+def owner_at(src_, pos):
+    best = None
+    for o, e, h in owners_of(src_):
+        if o <= pos < e and (best is None or o > best[0]):
+            best = (o, h)
+    return best[1] if best else "free"
+
+
+EXT_DEFS = {}    # name -> list of (owner, params, body)
+
+
+def ext_defs(name):
+    if name in EXT_DEFS:
+        return EXT_DEFS[name]
+    defs = []
+    for src_ in all_src():
+        for m in re.finditer(r"\bfn\s+%s\s*(?:<[^>{]*>)?\s*\(" % re.escape(name), src_):
+            depth, j = 0, m.end() - 1
+            while True:
+                depth += src_[j] == "("
+                depth -= src_[j] == ")"
+                if depth == 0:
+                    break
+                j += 1
+            sig = src_[m.end():j]
+            k = re.match(r"\s*(->\s*[^{;]+)?\s*([{;])", src_[j + 1:])
+            if not k or k.group(2) == ";":
+                continue
+            body = block_at(src_, j + 1 + k.end() - 1)[0]
+            params = {}
+            for pm in re.finditer(r"(\w+)\s*:\s*&(?:'\w+\s+)?mut\s+(?:\w+::)*(\w+)", sig):
+                if pm.group(2) in VISITOR_TYPES:
+                    params[pm.group(1)] = pm.group(2)
+            if params:
+                defs.append((owner_at(src_, m.start()), params, body))
+    EXT_DEFS[name] = defs
+    return defs
+
+
+def ext_node(name, owner):
+    return "ext:%s@%s" % (name, re.sub(r"[^\w<>:+' ]", "", owner))
+
+
+def resolve_ext(name, from_owner, via_self):
+    defs = ext_defs(name)
+    if not defs:
+        die("a visitor is handed to `%s`, but no function of that name takes one" % name)
+    if via_self:
+        same = [d for d in defs if d[0] == from_owner]
+        pick = same or defs
+    else:
+        pick = [d for d in defs if d[0] != from_owner] if from_owner else defs
+    return [ext_node(name, d[0]) for d in pick]
+
+
+def expand_ext(node_edges, from_owner, body):
+    """replace the placeholders `ext:name` by owner-qualified nodes"""
+    out = set()
+    for y in node_edges:
+        if y.startswith("ext:") and "@" not in y:
+            name = y[4:]
+            via_self = bool(re.search(r"\bself\s*\.\s*%s\s*\(" % re.escape(name), body))
+            out |= set(resolve_ext(name, from_owner, via_self))
+        else:
+            out.add(y)
+    return out
+
+
+for node in list(CG):
+    CG[node] = expand_ext(CG[node], None, BODY.get(node, ""))
+todo_ext = sorted(y for ys in CG.values() for y in ys if y.startswith("ext:") and y not in CG)
+while todo_ext:
+    node = todo_ext.pop()
+    if node in CG:
+        continue
+    name, owner_key = node[4:].split("@", 1)
+    callees = set()
+    for owner, params, body in ext_defs(name):
+        if ext_node(name, owner) != node:
+            continue
+        callees |= expand_ext(edges_of(node, body, None, params), owner, body)
+    CG[node] = callees
+    todo_ext += [y for y in callees if y.startswith("ext:") and y not in CG]
+
+ENTRIES = [("mark", "MarkAndSweepContext::visit"), ("mark2", "MarkAndSweepContextRefQueue::visit"),
+           ("collect", "CycleCollector::visit"), ("dropwl", "IterativeDropHandler::visit"),
+           ("equal", "RecursiveEqualityHandler::compare_equality")]
+for _, e in ENTRIES:
+    if e not in CG:
+        die("entry point %s not found" % e)
+
+
+def reach(start):
+    seen_, todo = set(), [start]
+    while todo:
+        x = todo.pop()
+        for y in CG.get(x, ()):
+            if y not in seen_:
+                seen_.add(y)
+                todo.append(y)
+    return seen_
+
+
+# two graphs: the worklists (marker, both copies; cycle collector; drop handler with the Drop impls that start it), which have to
+# be free of cycles, and the equality handler (whose key lookups re-enter `==`: K18d)
+def restrict(entries_):
+    keep_ = set()
+    for e in entries_:
+        keep_ |= {e} | reach(e)
+    order_, state_ = [], {}
+
+    def topo(n):
+        if state_.get(n):
+            return           # finished, or on the stack (a cycle: no topological order, the Lean check `ranked` fails)
+        state_[n] = 1
+        for y in sorted(CG.get(n, ())):
+            if y in keep_:
+                topo(y)
+        state_[n] = 2
+        order_.append(n)
+
+    for n in sorted(keep_):
+        topo(n)
+    return keep_, order_
+
+
+sys.setrecursionlimit(10000)
+WL_ENTRIES = [e for o, e in ENTRIES if o != "equal"] + sorted(n for n in CG if n.startswith("Drop<"))
+keep, order = restrict(WL_ENTRIES)
+eq_keep, eq_order = restrict([e for o, e in ENTRIES if o == "equal"])
+# per (operation, variant): does the variant's visit method lead back into a loop entry?  (mutual recursion between methods)
+RECURSIVE_PATHS = []
+TYPE_OF_OP = {"mark": "MarkAndSweepContext", "collect": "CycleCollector", "dropwl": "IterativeDropHandler"}
+for i, (op, v, t, note) in enumerate(table):
+    ty = TYPE_OF_OP.get(op)
+    meth = DISPATCH.get(v)
+    if not ty or not meth or t not in ("iterative", "atomic"):
+        continue
+    node = "%s::%s" % (ty, meth)
+    r = reach(node)
+    back = sorted(x for x in r if x.endswith("::visit") or x.endswith("::bfs") or x == node)
+    if back:
+        table[i] = (op, v, "recUnbounded", "reaches %s again through the call graph" % back[0])
+        RECURSIVE_PATHS.append("%s/%s -> %s" % (op, v, back[0]))
+for n in sorted(x for x in CG if x.startswith("MarkAndSweepContextRefQueue::visit_")):
+    r = reach(n)
+    if any(x.endswith("::visit") or x == n for x in r) and n.split("::")[1] not in MARK2_REC:
+        MARK2_REC.append(n.split("::")[1])
+MARK2_REC.sort()
+
 # ---- output --------------------------------------------------------------------------------------------------------
 OPS = ["hash", "print", "equal", "mark", "collect", "dropwl", "drop", "send", "serialize"]
 
@@ -467,6 +762,27 @@ for k in ["eqBoxVisited", "eqMixVecVisited", "eqKeysIterative", "markSboxVisited
           "ccTracksAlways", "hashIterative", "hashCycleSafe", "printBoxNoReentry", "printMapNoReentry", "dropPairSetIterative",
           "dropClosureBoxIterative"]:
     lines.append("def %s : Bool := %s" % (k, "true" if FLAGS[k] else "false"))
+lines.append("")
+def emit_graph(prefix, order_, keep_, doc):
+    idx = dict((n, i) for i, n in enumerate(order_))
+    lines.append("/-- %s -/" % doc)
+    lines.append("def %sFns : List String := [" % prefix)
+    lines.append(",\n".join('  "%s"' % n for n in order_))
+    lines.append("]")
+    lines.append("/-- entry `i`: the functions (positions in `%sFns`) that function `i` calls -/" % prefix)
+    lines.append("def %sCalls : List (List Nat) := [" % prefix)
+    lines.append(",\n".join("  [%s]" % ", ".join(str(idx[y]) for y in sorted(CG.get(n, ())) if y in keep_) for n in order_))
+    lines.append("]")
+    return idx
+
+
+wl_idx = emit_graph("wl", order, keep, "the functions of the worklist traversals (marker, its parallel copy, cycle collector, drop handler, "
+                    "the Drop impls that start it, whatever they hand the visitor to), callees before their callers when there is no cycle")
+eq_idx = emit_graph("eq", eq_order, eq_keep, "the functions of the equality handler")
+lines.append("def wlEntries : List (String × Nat) := [" + ", ".join('("%s", %d)' % (o, wl_idx[e]) for o, e in ENTRIES if o != "equal") + "]")
+lines.append("def wlDropEntries : List Nat := [" + ", ".join(str(wl_idx[n]) for n in sorted(CG) if n.startswith("Drop<")) + "]")
+lines.append("def eqEntry : Nat := %d" % eq_idx["RecursiveEqualityHandler::compare_equality"])
+lines.append("def recursivePaths : List String := [" + ", ".join('"%s"' % d for d in RECURSIVE_PATHS) + "]")
 lines += ["", "end SteelVerif.C18.Gen", ""]
 text = "\n".join(lines)
 old = open(OUT).read() if os.path.exists(OUT) else None
@@ -481,5 +797,16 @@ for op in OPS:
     for k in ("recUnbounded", "missing"):
         if summary.get(op, {}).get(k):
             print("c18_traversals:           %s: %s" % (k, " ".join(summary[op][k])))
+def _depth(n, seen_=()):
+    if n in seen_:
+        return 10 ** 6
+    return 1 + max([_depth(y, seen_ + (n,)) for y in CG.get(n, ())] or [0])
+
+
+for op_, e_ in ENTRIES:
+    d_ = _depth(e_)
+    print("c18_traversals: call graph %-8s entry %s: %s" % (op_, e_, "longest call chain %d" % d_ if d_ < 10 ** 6 else "RECURSIVE"))
+print("c18_traversals: call graph of the worklists %d functions, %d edges; of the equality handler %d functions; recursive paths from visit methods: %s" % (
+    len(order), sum(len([y for y in CG.get(n, ()) if y in keep]) for n in order), len(eq_order), RECURSIVE_PATHS or "none"))
 print("c18_traversals: flags " + " ".join("%s=%s" % (k, FLAGS[k]) for k in sorted(FLAGS)))
 print("c18_traversals: %d variants, %d rows, print limit %d, Drop impls %s" % (len(VARIANTS), len(table), PRINT_LIMIT, DROP_IMPLS))
